@@ -7,6 +7,7 @@ import (
 	"net/url"
 	"strings"
 	"testing"
+	"unicode"
 
 	"github.com/issue9/mux/v9"
 	"github.com/issue9/mux/v9/types"
@@ -31,7 +32,7 @@ type Case struct {
 }
 
 var (
-	labels   = []string{"a", "b", "c", "d", "e", "f", "g", "api", "ww", "a1"}
+	labels   = []string{"a", "b", "c", "d", "e", "f", "g", "api", "ww", "a1", "münchen", "пример"} // raw-UTF-8 names too: their capitals are not ASCII
 	suffixes = []string{"b.com", "c.io", "d.net", "a.b.com", "b.com.", "com"}
 	ipv6     = []string{"::1", "fe80::ab", "2001:db8::a:1"} // IPv6 literals are domains too; they arrive in brackets
 	tokens   = []string{"{sub}", "{s2}", `{n:\d+}`, "{w:word}", "{-sub}", `{any:[^.]+}`, "{d:digit}", "{sub2}"}
@@ -39,6 +40,22 @@ var (
 )
 
 func randCase(t *rapid.T, s string) string {
+	// letters outside ASCII first, rune by rune (their upper-case forms have the same encoded length here)
+	if !isASCII(s) {
+		rs := []rune(s)
+		depth := 0
+		for i, r := range rs {
+			switch {
+			case r == '{':
+				depth++
+			case r == '}':
+				depth--
+			case depth == 0 && r > 127 && unicode.IsLower(r) && rapid.IntRange(0, 2).Draw(t, "ucRune") == 0:
+				rs[i] = unicode.ToUpper(r)
+			}
+		}
+		s = string(rs)
+	}
 	b := []byte(s)
 	depth, inRule := 0, false
 	for i, c := range b {
@@ -59,6 +76,15 @@ func randCase(t *rapid.T, s string) string {
 		}
 	}
 	return string(b)
+}
+
+func isASCII(s string) bool {
+	for i := 0; i < len(s); i++ {
+		if s[i] > 127 {
+			return false
+		}
+	}
+	return true
 }
 
 func genDomain(t *rapid.T, ic bool) string {
